@@ -187,6 +187,11 @@ lock, releases it, touches guarded fields only inside, writes only under the wri
 model operation has its method, and there is no method without a model operation. -/
 theorem lock_facts_match_model : factsMatch Kit.Generated.C14.methods = true := by decide
 
+/-- `slice.Append` copies its arguments into container-owned storage on every path: every
+assignment to the slice-typed guarded field is `append(s.data, …)` or a fresh slice, never a
+parameter slice (which would make the container share the caller's backing array) -/
+theorem slice_storage_is_container_owned : storesOwned Kit.Generated.C14.sliceStores = true := by decide
+
 /-- operations the models treat as `read` (so that holding only the read lock, possibly together
 with other readers, is enough) really leave the specification state unchanged -/
 theorem map_read_ops_readonly (op : MapOp) (h : shapeOf expectedShapes "mapimpl" (mapMethod op) = .read)
